@@ -74,6 +74,11 @@ func knownType(name string) bool {
 	return slip.FindClass(name) != nil || hierNames[name]
 }
 
+func lambdaSrc(o Obj) bool { return o.K == "src" && strings.HasPrefix(o.S, "(lambda") }
+
+// multiDim: an array of rank other than 1, built from source.
+func multiDim(o Obj) bool { return o.K == "src" && strings.HasPrefix(o.S, "(make-array '(") }
+
 func bindX(c TCase) (*slip.Scope, slip.Object, string) {
 	scope := slip.NewScope()
 	out := ev.Try(func() slip.Object { return build(scope, c.X) })
@@ -128,6 +133,9 @@ func runTypeOwn(c TCase) *h.Result {
 		}
 		cpl, _ := out.Val.(slip.List)
 		for _, s := range cpl {
+			if multiDim(c.X) && sx.Text(s) == "sequence" && h.Excluded("array-not-sequence") {
+				continue
+			}
 			v, msg = typepOf(scope, s)
 			n++
 			if msg != "" {
@@ -276,6 +284,9 @@ func runTypeSub(c TCase) *h.Result {
 		if !ab {
 			continue
 		}
+		if multiDim(c.X) && c.A == "array" && reg[ib] == "sequence" && h.Excluded("array-not-sequence") {
+			continue
+		}
 		v, msg := typepOf(scope, slip.Symbol(reg[ib]))
 		n++
 		if msg != "" {
@@ -298,6 +309,17 @@ func runCoerce(c TCase) *h.Result {
 	scope, x, msg := bindX(c)
 	if msg != "" {
 		return h.Fail("%s", msg)
+	}
+	switch {
+	case (c.A == "byte" || c.A == "short-float") && h.ExclOn("type-alias-class"):
+		res.Skip = "type-alias-class"
+	case c.A == "function" && lambdaSrc(c.X) && h.ExclOn("lambda-not-function"):
+		res.Skip = "lambda-not-function"
+	case c.X.K == "nil" && (c.A == "vector" || c.A == "octets") && h.ExclOn("coerce-nil-to-nil"):
+		res.Skip = "coerce-nil-to-nil"
+	}
+	if res.Skip != "" {
+		return res
 	}
 	before := sx.Typed(x)
 	scope.Let("ty", slip.Symbol(c.A))
@@ -353,6 +375,13 @@ var (
 	}}
 	coerceAll = h.Prop[TCase]{Name: "coerce-universe", Run: runCoerce}
 )
+
+func witnessesFirst(t *testing.T) {
+	h.RunProp(t, hashProp, 0)
+	h.RunProp(t, typeOwn, 0)
+	h.RunProp(t, typeSub, 0)
+	h.RunProp(t, coerce, 0)
+}
 
 func testTypes(t *testing.T) {
 	registry()
